@@ -78,6 +78,9 @@ static volatile int fail_accept_errno = 0;
 /* a stepped wall clock: CLOCK_REALTIME readings are shifted by this many nanoseconds */
 static int (*real_clock_gettime)(clockid_t, struct timespec *);
 static volatile long long clock_shift_ns = 0;
+/* a wall clock that stands still (a coarse clock, or writes faster than its resolution): every reading is the same */
+static volatile int clock_frozen = 0;
+static struct timespec frozen_ts;
 
 static void init(void) __attribute__((constructor));
 static void init(void) {
@@ -389,6 +392,10 @@ void *mmap64(void *a, size_t l, int prot, int flags, int fd, off_t off) {
 void iotrace_fail_accepts(long n, int err) { fail_accept_errno = err; failed_accepts = 0; fail_accepts = n; }
 long iotrace_failed_accepts(void) { return failed_accepts; }
 void iotrace_clock_shift(long long ns) { clock_shift_ns = ns; }
+void iotrace_clock_freeze(int on) {
+    if (on) { clock_frozen = 0; clock_gettime(CLOCK_REALTIME, &frozen_ts); clock_frozen = 1; }
+    else clock_frozen = 0;
+}
 
 static int accept_fault(void) {
     if (fail_accepts > 0 && __sync_fetch_and_sub(&fail_accepts, 1) > 0) {
@@ -411,6 +418,7 @@ int accept(int fd, struct sockaddr *a, socklen_t *l) {
 int clock_gettime(clockid_t id, struct timespec *ts) {
     if (!real_clock_gettime) real_clock_gettime = dlsym(RTLD_NEXT, "clock_gettime");
     int r = real_clock_gettime(id, ts);
+    if (r == 0 && id == CLOCK_REALTIME && clock_frozen) { *ts = frozen_ts; return 0; }
     if (r == 0 && id == CLOCK_REALTIME && clock_shift_ns != 0) {
         long long t = (long long)ts->tv_sec * 1000000000LL + ts->tv_nsec + clock_shift_ns;
         ts->tv_sec = t / 1000000000LL;
